@@ -694,4 +694,189 @@ theorem finish_representable (mode : Mode) (s : Bool) (c : Nat) (e : Int)
 example : finish .rne false 1234 1 (-2) (-2) = (.fin false 1234 (-2), 0) :=
   finish_representable _ _ _ _ (by decide) (by decide) (by decide) (by decide)
 
+/-! ### values between two rounding boundaries have the same deliveries (used for `sqrt`) -/
+
+/-- `u` and `u'` lie on the same side of every half-integer (and hit the same ones). -/
+def SameSide (u u' : ℚ) : Prop :=
+  ∀ K : ℤ, ((K : ℚ) / 2 ≤ u ↔ (K : ℚ) / 2 ≤ u') ∧ (u ≤ (K : ℚ) / 2 ↔ u' ≤ (K : ℚ) / 2)
+
+theorem SameSide.symm {u u' : ℚ} (h : SameSide u u') : SameSide u' u :=
+  fun K => ⟨(h K).1.symm, (h K).2.symm⟩
+
+/-- Rounding to an integer only depends on the position relative to the half-integers. -/
+theorem RoundedTo_of_sameSide {mode : Mode} {neg : Bool} {u u' : ℚ} {m : Nat} (h : SameSide u u')
+    (hr : RoundedTo mode neg u m) : RoundedTo mode neg u' m := by
+  have a0 : ((m : ℚ) ≤ u ↔ (m : ℚ) ≤ u') ∧ (u ≤ (m : ℚ) ↔ u' ≤ (m : ℚ)) := by
+    have := h (2 * m); push_cast at this
+    rwa [mul_div_cancel_left₀ _ (two_ne_zero)] at this
+  have a1 : ((m : ℚ) + 1 ≤ u ↔ (m : ℚ) + 1 ≤ u') ∧ (u ≤ (m : ℚ) + 1 ↔ u' ≤ (m : ℚ) + 1) := by
+    have := h (2 * m + 2); push_cast at this
+    have e : (2 * (m : ℚ) + 2) / 2 = m + 1 := by ring
+    rwa [e] at this
+  have am1 : ((m : ℚ) - 1 ≤ u ↔ (m : ℚ) - 1 ≤ u') ∧ (u ≤ (m : ℚ) - 1 ↔ u' ≤ (m : ℚ) - 1) := by
+    have := h (2 * m - 2); push_cast at this
+    have e : (2 * (m : ℚ) - 2) / 2 = m - 1 := by ring
+    rwa [e] at this
+  have ah : ((m : ℚ) + 1 / 2 ≤ u ↔ (m : ℚ) + 1 / 2 ≤ u') ∧ (u ≤ (m : ℚ) + 1 / 2 ↔ u' ≤ (m : ℚ) + 1 / 2) := by
+    have := h (2 * m + 1); push_cast at this
+    have e : (2 * (m : ℚ) + 1) / 2 = m + 1 / 2 := by ring
+    rwa [e] at this
+  have amh : ((m : ℚ) - 1 / 2 ≤ u ↔ (m : ℚ) - 1 / 2 ≤ u') ∧ (u ≤ (m : ℚ) - 1 / 2 ↔ u' ≤ (m : ℚ) - 1 / 2) := by
+    have := h (2 * m - 1); push_cast at this
+    have e : (2 * (m : ℚ) - 1) / 2 = m - 1 / 2 := by ring
+    rwa [e] at this
+  have near : |u - m| ≤ 1 / 2 → |u' - m| ≤ 1 / 2 := by
+    intro hh
+    obtain ⟨l, r⟩ := abs_le.mp hh
+    have l' := amh.1.mp (by linarith)
+    have r' := ah.2.mp (by linarith)
+    exact abs_le.mpr ⟨by linarith, by linarith⟩
+  have tie : |u' - m| = 1 / 2 → |u - m| = 1 / 2 := by
+    intro hh
+    rcases abs_cases (u' - (m : ℚ)) with ⟨e, _⟩ | ⟨e, _⟩
+    · have l := ah.1.mpr (by linarith)
+      have r := ah.2.mpr (by linarith)
+      rw [abs_of_nonneg (by linarith)]; linarith
+    · have l := amh.1.mpr (by linarith)
+      have r := amh.2.mpr (by linarith)
+      rw [abs_of_nonpos (by linarith)]; linarith
+  have lt1 : u < (m : ℚ) + 1 → u' < (m : ℚ) + 1 := fun hh => not_le.mp (fun c => absurd (a1.1.mpr c) (not_le.mpr hh))
+  have gt1 : (m : ℚ) < u + 1 → (m : ℚ) < u' + 1 := fun hh => by
+    have : ¬ u' ≤ (m : ℚ) - 1 := fun c => absurd (am1.2.mpr c) (not_le.mpr (by linarith))
+    linarith [not_le.mp this]
+  cases mode <;> cases neg <;> simp only [RoundedTo, if_true, if_false, Bool.false_eq_true] at hr ⊢
+  all_goals
+    first
+    | exact ⟨a0.1.mp hr.1, lt1 hr.2⟩
+    | exact ⟨a0.2.mp hr.1, gt1 hr.2⟩
+    | exact ⟨near hr.1, fun t => hr.2 (tie t)⟩
+    | exact ⟨near hr.1, fun t => a0.2.mp (hr.2 (tie t))⟩
+
+/-- all the points strictly between two consecutive multiples of `1/(2H)` are on the same side of every
+half-integer -/
+theorem sameSide_between (r H : Nat) (hH : 0 < H) {t t' : ℚ} (ht0 : 0 < t) (ht1 : t < 1)
+    (ht0' : 0 < t') (ht1' : t' < 1) :
+    SameSide (((r : ℚ) + t) / (2 * H)) (((r : ℚ) + t') / (2 * H)) := by
+  have hHq : (0 : ℚ) < 2 * H := by have : (0 : ℚ) < H := by exact_mod_cast hH
+                                   linarith
+  have key1 : ∀ (K : ℤ) (s : ℚ), 0 < s → s < 1 → (((K * H : ℤ) : ℚ) ≤ (r : ℚ) + s ↔ K * H ≤ (r : ℤ)) := by
+    intro K s h0 h1
+    constructor
+    · intro h
+      have : ((K * H : ℤ) : ℚ) < ((r + 1 : ℤ) : ℚ) := by push_cast at h ⊢; linarith
+      have : K * H < r + 1 := by exact_mod_cast this
+      omega
+    · intro h
+      have : ((K * H : ℤ) : ℚ) ≤ ((r : ℤ) : ℚ) := by exact_mod_cast h
+      push_cast at this ⊢; linarith
+  have key2 : ∀ (K : ℤ) (s : ℚ), 0 < s → s < 1 → ((r : ℚ) + s ≤ ((K * H : ℤ) : ℚ) ↔ (r : ℤ) < K * H) := by
+    intro K s h0 h1
+    constructor
+    · intro h
+      have : ((r : ℤ) : ℚ) < ((K * H : ℤ) : ℚ) := by push_cast at h ⊢; linarith
+      exact_mod_cast this
+    · intro h
+      have : (((r : ℤ) + 1 : ℤ) : ℚ) ≤ ((K * H : ℤ) : ℚ) := by exact_mod_cast h
+      push_cast at this ⊢; linarith
+  intro K
+  have e : (K : ℚ) / 2 * (2 * H) = ((K * H : ℤ) : ℚ) := by push_cast; ring
+  constructor
+  · rw [le_div_iff₀ hHq, le_div_iff₀ hHq, e, key1 K t ht0 ht1, key1 K t' ht0' ht1']
+  · rw [div_le_iff₀ hHq, div_le_iff₀ hHq, e, key2 K t ht0 ht1, key2 K t' ht0' ht1']
+
+
+theorem RoundedTo_lt {mode : Mode} {neg : Bool} {u : ℚ} {M : Nat} (h : RoundedTo mode neg u M) :
+    u < M + 1 := by
+  cases mode <;> cases neg <;> simp only [RoundedTo, if_true, if_false, Bool.false_eq_true] at h <;>
+    first
+    | (obtain ⟨h1, h2⟩ := h; linarith)
+    | (obtain ⟨h1, h2⟩ := h; have := abs_le.mp h1; linarith)
+
+theorem sameSide_eq_nat {u u' : ℚ} (h : SameSide u u') {m : Nat} (hu : u = m) : u' = m := by
+  have := h (2 * m); push_cast at this
+  rw [mul_div_cancel_left₀ _ (two_ne_zero)] at this
+  exact le_antisymm (this.2.mp hu.le) (this.1.mp hu.ge)
+
+section transfer
+variable {ρ ρ' : ℚ} {E : ℤ}
+
+private theorem tr_size (hρ : (10 : ℚ) ^ (37 + E) ≤ ρ) {x : ℤ} (h : ρ / (10 : ℚ) ^ x < (10 : ℚ) ^ (35 : ℤ)) :
+    E + 1 ≤ x := by
+  have hp : (0 : ℚ) < (10 : ℚ) ^ x := zpow_pos ten_pos _
+  rw [div_lt_iff₀ hp, ← zpow_add₀ ten_ne] at h
+  have := (zpow_lt_zpow_iff_right₀ one_lt_ten).mp (lt_of_le_of_lt hρ h)
+  omega
+
+private theorem tr_mem (hρ : (10 : ℚ) ^ (37 + E) ≤ ρ)
+    (hss : ∀ x : ℤ, E + 1 ≤ x → SameSide (ρ / (10 : ℚ) ^ x) (ρ' / (10 : ℚ) ^ x))
+    {m : Nat} {x : ℤ} (hr : Representable m x) (hv : fval false m x = ρ) : fval false m x = ρ' := by
+  have hp : (0 : ℚ) < (10 : ℚ) ^ x := zpow_pos ten_pos _
+  rw [fval_false] at hv ⊢
+  have hu : ρ / (10 : ℚ) ^ x = m := by rw [← hv]; field_simp
+  have hm : (m : ℚ) < (10 : ℚ) ^ (35 : ℤ) := by
+    have : (m : ℚ) < ((P34 : Nat) : ℚ) := by exact_mod_cast hr.1
+    rw [P34_cast] at this
+    exact lt_trans this (zpow_lt_zpow_right₀ one_lt_ten (by norm_num))
+  have hx := tr_size hρ (by rw [hu]; exact hm)
+  have := sameSide_eq_nat (hss x hx) hu
+  rw [← this]; field_simp
+
+private theorem tr_tiny (hρ : (10 : ℚ) ^ (37 + E) ≤ ρ) (hρ' : (10 : ℚ) ^ (37 + E) ≤ ρ')
+    (hss : ∀ x : ℤ, E + 1 ≤ x → SameSide (ρ / (10 : ℚ) ^ x) (ρ' / (10 : ℚ) ^ x)) :
+    ρ < (10 : ℚ) ^ (-6143 : ℤ) ↔ ρ' < (10 : ℚ) ^ (-6143 : ℤ) := by
+  by_cases hE : E + 1 ≤ -6143
+  · have hp : (0 : ℚ) < (10 : ℚ) ^ (-6143 : ℤ) := zpow_pos ten_pos _
+    have := (hss (-6143) hE 2).1
+    rw [show ((2 : ℤ) : ℚ) / 2 = 1 by norm_num, le_div_iff₀ hp, le_div_iff₀ hp, one_mul] at this
+    rw [← not_le, ← not_le, this]
+  · have h1 : (10 : ℚ) ^ (-6143 : ℤ) ≤ (10 : ℚ) ^ (37 + E) := zpow_le_zpow_right₀ one_lt_ten.le (by omega)
+    constructor
+    · intro h; linarith
+    · intro h; linarith
+
+/-- `FinishSpec` only depends on the position of the value relative to the rounding boundaries: two
+values of at least 37 + 1 digits above `10^E` that lie on the same side of every half-unit at every
+exponent above `E` have the same correct deliveries. -/
+theorem FinishSpec_transfer {mode : Mode} {neg : Bool} {pref : Int} {out : Datum × Flags}
+    (hρ : (10 : ℚ) ^ (37 + E) ≤ ρ) (hρ' : (10 : ℚ) ^ (37 + E) ≤ ρ')
+    (hss : ∀ x : ℤ, E + 1 ≤ x → SameSide (ρ / (10 : ℚ) ^ x) (ρ' / (10 : ℚ) ^ x))
+    (h : FinishSpec mode neg ρ pref out) : FinishSpec mode neg ρ' pref out := by
+  have hss' : ∀ x : ℤ, E + 1 ≤ x → SameSide (ρ' / (10 : ℚ) ^ x) (ρ / (10 : ℚ) ^ x) := fun x hx => (hss x hx).symm
+  have mem : IsMember ρ ↔ IsMember ρ' := by
+    constructor
+    · rintro ⟨m, x, hr, hv⟩; exact ⟨m, x, hr, tr_mem hρ hss hr hv⟩
+    · rintro ⟨m, x, hr, hv⟩; exact ⟨m, x, hr, tr_mem hρ' hss' hr hv⟩
+  have h35 : ((P34 : Nat) : ℚ) + 1 ≤ (10 : ℚ) ^ (35 : ℤ) := by rw [P34_cast]; norm_num
+  rcases h with ⟨hm, m, x, ho, hv, hr, hc⟩ | ⟨hm, m, x, ho, h1, h2, h3, h4, h5⟩ | ⟨hm, ho, M, hM, hP⟩
+  · left
+    refine ⟨mem.mp hm, m, x, ho, tr_mem hρ hss hr hv, hr, ?_⟩
+    intro m' x' hr' hv'
+    exact hc m' x' hr' (tr_mem hρ' hss' hr' hv')
+  · right; left
+    refine ⟨fun c => hm (mem.mpr c), m, x, ?_, h1, h2, h3, h4, ?_⟩
+    · rw [ho]
+      have := tr_tiny hρ hρ' hss
+      by_cases ht : ρ < (10 : ℚ) ^ (-6143 : ℤ)
+      · rw [if_pos ht, if_pos (this.mp ht)]
+      · rw [if_neg ht, if_neg (fun c => ht (this.mpr c))]
+    · rcases h5 with h5 | ⟨h5, h6⟩
+      · left
+        have hlt := RoundedTo_lt h5
+        have hmq : (m : ℚ) < ((P34 : Nat) : ℚ) := by exact_mod_cast h1
+        have hx := tr_size hρ (show ρ / (10 : ℚ) ^ x < (10 : ℚ) ^ (35 : ℤ) by linarith)
+        exact RoundedTo_of_sameSide (hss x hx) h5
+      · right
+        have hlt := RoundedTo_lt h6
+        have hx := tr_size hρ (show ρ / (10 : ℚ) ^ (x - 1) < (10 : ℚ) ^ (35 : ℤ) by linarith)
+        exact ⟨h5, RoundedTo_of_sameSide (hss (x - 1) hx) h6⟩
+  · right; right
+    refine ⟨fun c => hm (mem.mpr c), ho, ?_⟩
+    by_cases hE : E + 1 ≤ eMax
+    · exact ⟨M, RoundedTo_of_sameSide (hss eMax hE) hM, hP⟩
+    · have : (10 : ℚ) ^ (34 + eMax) ≤ ρ' :=
+        le_trans (zpow_le_zpow_right₀ one_lt_ten.le (by omega)) hρ'
+      exact (overflow_clause mode neg this).2
+
+end transfer
+
 end Dec
